@@ -10,6 +10,7 @@ SEEDS = {
     'C08-cbor-bignum-head': ('C08', 'cbor_head'), 'C08-ubjson-length-int16': ('C08', 'ubjson'), 'C09-ojson-bloom': ('C09', 'ojson_bloom,cmp'),
     'C10-flatten-destroy': ('C10', None), 'C12-slice-neg-step': ('C12', 'slices'), 'C13-slice-neg-start': ('C13', 'slices'), 'C14-leading-zeros-00': ('C14', 'jsonpointer'),
     'C18-toon-tabular-backslash': ('C18', 'toon,csv_quote'),
+    'C12-jsonpath-parser-slice-reset': ('C12', 'slices'), 'C18-csv-minimal-quote-linebreak': ('C18', 'csv_quote'),
     'C03-fals-cursor-mode': ('C03', 'json_literals'), 'C04-grisu-boundary-shift': ('C04', 'grisu'), 'C10-source-reader-claimed-length': ('C10', 'source_reader'),
 }
 only = sys.argv[1:]
